@@ -30,9 +30,9 @@ def gen_overload(rng, nargs_hint, args):
     ps = []
     for i in range(n):
         q = rng.random()
-        if i < len(args) and q < 0.45:
+        if i < len(args) and q < 0.22:
             ps.append(args[i][0])                      # exactly the argument type
-        elif i < len(args) and q < 0.75:
+        elif i < len(args) and q < 0.62:
             ps.append(generalise(rng, args[i][0]))     # a generic pattern of it
         else:
             ps.append(rng.choice(PARAM_TYPES))
